@@ -27,6 +27,8 @@ def by_id(kf, fid):
 
 
 def _eq(want, got):
+    if isinstance(want, dict) and "contains" in want:
+        return want["contains"] in str(got)
     if isinstance(want, list) and not isinstance(got, list):
         return got in want
     return want == got
